@@ -109,10 +109,12 @@ def check_design(ctx, g, cls, k, cycles, nsimple, nforced, ffl, coq_cases, coq_m
       new = (set().union(*[reach[x] for x in reach[a]]) - reach[a]) if reach[a] else set()
       if new: reach[a] |= new; ch = True
   dynr, dynw = {}, {}
-  if len(fpx.comb) <= 14 or any(f.startswith(('func-', 'param-')) for f in g.features):
+  special = any(f.startswith(('func-', 'param-', 'signal-index')) for f in g.features)
+  if (len(fpx.comb) <= 8 or (special and len(fpx.comb) <= 25)) if ctx.tier == 'quick' else (len(fpx.comb) <= 14 or special):
     topx.sim_reset()
-    dynr = {fpx.cid[b]: v for b, v in sc.dynamic_reads(topx, fpx, random.Random(seed), trials=2).items()}
-    dynw = {fpx.cid[b]: v for b, v in sc.dynamic_writes(topx, fpx, random.Random(seed), trials=2).items()}
+    ntr = 1 if ctx.tier == 'quick' else 2
+    dynr = {fpx.cid[b]: v for b, v in sc.dynamic_reads(topx, fpx, random.Random(seed), trials=ntr).items()}
+    dynw = {fpx.cid[b]: v for b, v in sc.dynamic_writes(topx, fpx, random.Random(seed), trials=ntr).items()}
     ctx.hist['dynamic-footprint-discovery'] = ctx.hist.get('dynamic-footprint-discovery', 0) + 1
   pairs = []
   for a, ba in enumerate(fpx.comb):
@@ -229,7 +231,7 @@ def sc_live(top, sig):
 def run(ctx):
   setup_impl_path()
   quick = ctx.tier == 'quick'
-  ndes = 130 if quick else 1500
+  ndes = 95 if quick else 1500
   coq_cases, coq_meta = [], []
   distinct_orders = 0
   for k in range(ndes):
